@@ -1,10 +1,19 @@
 ---- MODULE PinvCatalog ----
 \* Stub used only for syntax checking (setup.sh); the real module is generated on every run of ./check C16
 \* scales (optional): Gaussian rationals c for which TLC checks pinv(c A) b = pinv(A) b / c
+\* kind "Tree" (optional fields tree, revlaw): lazy composite operator, A = Expr!Denote(tree); revlaw = the catalog's claim
+\* whether the reverse-order candidate Fn^+ .. F1^+ b equals pinv(F1 .. Fn) b
 EXTENDS Integers, Sequences
 PCases == <<[id |-> "stub", kind |-> "Dense",
              A |-> [r |-> 1, c |-> 1, d |-> 1, e |-> <<<<<<2, 0>>>>>>],
              b |-> [r |-> 1, c |-> 1, d |-> 1, e |-> <<<<<<1, 0>>>>>>],
              sc |-> <<0, 0>>, diag |-> <<<<0, 0>>>>, perm |-> <<1>>,
-             scales |-> <<[n |-> <<1, 0>>, d |-> 10], [n |-> <<0, 1>>, d |-> 1]>>]>>
+             scales |-> <<[n |-> <<1, 0>>, d |-> 10], [n |-> <<0, 1>>, d |-> 1]>>],
+            [id |-> "stubtree", kind |-> "Tree",
+             A |-> [r |-> 1, c |-> 1, d |-> 1, e |-> <<<<<<6, 0>>>>>>],
+             b |-> [r |-> 1, c |-> 1, d |-> 1, e |-> <<<<<<1, 0>>>>>>],
+             sc |-> <<0, 0>>, diag |-> <<<<0, 0>>>>, perm |-> <<1>>, scales |-> <<>>, revlaw |-> TRUE,
+             tree |-> [k |-> "Product", p |-> [none |-> TRUE],
+                       a |-> <<[k |-> "Dense", a |-> <<>>, p |-> [m |-> [r |-> 1, c |-> 1, d |-> 1, e |-> <<<<<<2, 0>>>>>>], dt |-> "f64"]],
+                               [k |-> "Dense", a |-> <<>>, p |-> [m |-> [r |-> 1, c |-> 1, d |-> 1, e |-> <<<<<<3, 0>>>>>>], dt |-> "f64"]]>>]]>>
 ====
